@@ -1878,6 +1878,20 @@ class Sym:
                 r = self.array_find(args, st)
                 if r is not None:
                     return r
+            # comparison categories (<compare>): `o < 0`, `0 < o`, std::is_lt(o), ... are the tests of the sign they name
+            if recv is None and '__cmp_cat::__unspec' in callee['id'] and len(args) == 2 and name.startswith('operator') \
+                    and name[8:] in ('<', '>', '<=', '>=', '==', '!='):
+                ptypes = callee['id'][callee['id'].index('(') + 1:].rstrip(')').split(', ')
+                op = name[8:]
+                if len(ptypes) == 2 and '__unspec' in ptypes[1]:
+                    return [(st, ('op', op, args[0], ('k', 0, 'int')))]
+                if len(ptypes) == 2 and '__unspec' in ptypes[0]:
+                    flip = {'<': '>', '>': '<', '<=': '>=', '>=': '<=', '==': '==', '!=': '!='}[op]
+                    return [(st, ('op', flip, args[1], ('k', 0, 'int')))]
+            if recv is None and len(args) == 1 and name in ('is_eq', 'is_neq', 'is_lt', 'is_lteq', 'is_gt', 'is_gteq') \
+                    and (callee.get('q') or '').startswith('std::'):
+                op = {'is_eq': '==', 'is_neq': '!=', 'is_lt': '<', 'is_lteq': '<=', 'is_gt': '>', 'is_gteq': '>='}[name]
+                return [(st, ('op', op, args[0], ('k', 0, 'int')))]
             if name in ('countr_zero', 'countl_zero', 'popcount', 'bit_width', 'has_single_bit', 'countr_one') and recv is None \
                     and len(args) == 1 and isinstance(args[0], tuple) and args[0][:1] == ('k',) and isinstance(args[0][1], int) \
                     and (callee.get('q') or callee['id']).startswith('std::'):
